@@ -50,12 +50,12 @@ def run(chk):
     n = 12 if quick else 300
     sc = vlib.scratch("c08_clang")
     progs = []
-    for i in range(n):
-        files = cgen.program(chk.rng)
+    todo = [(f, a) for f, a in cgen.SHAPES] + [(cgen.program(chk.rng), None) for _ in range(n)]
+    for i, (files, fixed_args) in enumerate(todo):
         d = os.path.join(sc, "p%d" % i)
         try:
             gcno = cgen.build(d, files)
-            args = cgen.arg_sets(chk.rng, chk.rng.randrange(0, 4))
+            args = fixed_args if fixed_args is not None else cgen.arg_sets(chk.rng, chk.rng.randrange(0, 4))
             singles, merged = cgen.profiles(d, args)
             ref = cgen.gcov_reference(d, merged is not None)
         except Exception as ex:
